@@ -35,6 +35,15 @@ CHECKS["C13"] = dict(technique="TLC-chosen layouts (LayoutGen.tla); Syntax.Start
 CHECKS["C15"] = dict(technique="Exhaustive reference structures; TLC compares the recorded warnings, mapped to names through Syntax.Starts, with Usage.Undefined/UnusedPlain/UnusedSpec (DiagCheck.tla) and validates script equality with the twin grammar through the memo model (MemoCheck.tla)",
              text="All 400 reference structures of two nonterminals ({plain, @target, @other, undefined} x {direct, inside a word, via a used definition, via an unused definition, nowhere}) x 4 shells: the set of warnings equals what the specification derives, each exactly once at an occurrence of the name of the right sort, exit status 0, and the script is byte-identical to that of the twin grammar without the unreachable definitions.",
              ref="7/C15", note="Exhaustive for two names (random over four names in thorough); canonical layout (layouts are C13's subject).")
+CHECKS["C06"] = dict(technique="TLC enumerates token-edit sequences (EditGen.tla) over seed grammars; every recorded (options, terminal state) of the command is validated as a terminal state of the phase/effect machine Cli.tla (CliCheck.tla), whose invariants TLC checks on the same exploration",
+             text="All single token edits (delete, duplicate, swap, insert bracket/operator, truncate, splice bytes) of the bundled examples, generated clean grammars and grammars with a planted mistake of every class, all edit pairs of tiny seeds, token soups, deep nesting, long lines and malformed encodings, x shell x destination kind x Graphviz options: every run must end in a state the specification of the command admits (exit 0 with the complete script, or exit 1 with a diagnostic and an untouched destination).",
+             ref="7/C06", note="Sampled to a budget for large seeds; nesting depth <= 500; runs go through main.rs in-process, every other-than-0/1 outcome and a random sample are re-run with the real (dev profile) binary.")
+CHECKS["C10"] = dict(technique="Observation log of (grammar, shell, artefact) digests from separately started processes with differing environments, the in-process front end and repeated in-process compilation, validated by TLC against the memo model (MemoCheck.tla)",
+             text="For the bundled examples and seeded large grammars x 4 shells x {script, --dfa, --regex}: all observations of one key are equal (first observation fixes the value).",
+             ref="7/C10", note="A randomly seeded container would be caught only with the probability that two of the sampled processes order it differently and the order reaches the output; no hook events are compared yet.")
+CHECKS["C14"] = dict(technique="TLC-chosen layouts (LayoutGen.tla) and generator recipes of one abstract grammar; script digests validated by TLC against the memo model keyed by (abstract grammar, shell) (MemoCheck.tla)",
+             text="Per grammar and shell, the canonical file and its re-laid-out variants (blanks, tabs, newlines, comments, form feed at every token boundary; `::=`; final `;` dropped; redundant parentheses; permuted and moved definitions) must compile to byte-identical scripts.",
+             ref="7/C14", note="Call variants keep their relative order; the version line of the script is not compared.")
 PENDING = {}
 
 def main():
